@@ -2377,6 +2377,18 @@ pub open spec fn block_covered<'i>(ts: Seq<Token>, newq: Seq<Event<'i>>, oldq: S
     &&& (ts[0].kind != TokenKind::TextStep && !(newq.last() is Section && newq.last()->name.is_none())
             ==> covered(ts, ts.len() as int, newq, oldq.len() as int))
 }
+/// the last step of next_block, kept out of the function body (it is cheap here and expensive there): what the block parser
+/// guarantees about its token slice is what the postcondition says about the corresponding range of the remaining stream
+pub proof fn lemma_next_block_done<'i>(r0: Seq<Token>, blk: Seq<Token>, start: int, end: int, toks: Seq<Token>, newq: Seq<Event<'i>>, oldq: Seq<Event<'i>>)
+    requires 0 <= start < end <= blk.len() <= r0.len(), blk == r0.subrange(0, blk.len() as int), toks == blk.subrange(start, end),
+        is_block(r0, start, end, blk.len() as int), ev_grown(newq, oldq),
+        toks[0].kind != TokenKind::TextStep && !(newq.last() is Section && newq.last()->name.is_none()) ==> covered(toks, toks.len() as int, newq, oldq.len() as int),
+    ensures exists|a: int, b: int| #[trigger] is_block(r0, a, b, blk.len() as int) && block_covered(r0.subrange(a, b), newq, oldq)
+{
+    assert(toks =~= r0.subrange(start, end));
+    lemma_block_covered(toks, newq, oldq);
+    assert(is_block(r0, start, end, blk.len() as int) && block_covered(r0.subrange(start, end), newq, oldq));
+}
 pub proof fn lemma_block_covered<'i>(ts: Seq<Token>, newq: Seq<Event<'i>>, oldq: Seq<Event<'i>>)
     requires ev_grown(newq, oldq),
         ts[0].kind != TokenKind::TextStep && !(newq.last() is Section && newq.last()->name.is_none()) ==> covered(ts, ts.len() as int, newq, oldq.len() as int),
@@ -2660,8 +2672,7 @@ after `parse_block(&mut bp, self.old_style_metadata);`:
 after `bp.finish();`:
         proof {
             assert(bp0.evs() == old(self).q()); assert(bp1.fin() == self.q());
-            assert(bp1.toks() =~= r0.subrange(start as int, end as int));
-            lemma_block_covered(bp1.toks(), bp1.evs(), bp0.evs());
+            lemma_next_block_done(r0, self.blk(), start as int, end as int, bp1.toks(), bp1.evs(), bp0.evs());
         }
 @*/
 
